@@ -409,6 +409,97 @@ def hash_pair_history(rng, cid, mode='persistent'):
             ops.append(rng.choice(['size', 'iter', 'full']))
     return Case(cid, 'hash', {'vty': 'hpair', 'cap': cap, 'nrec': cap, 'mode': mode}, ops, {'stream': 'P', 'impl_only': True})
 
+M64 = (1 << 64) - 1
+def _rotl(x, b):
+    return ((x << b) | (x >> (64 - b))) & M64
+def siphash13(data):
+    """SipHash-1-3 with zero keys (std DefaultHasher), for placing values in the right bucket
+    when building hash-set states by hand"""
+    v0, v1, v2, v3 = 0x736f6d6570736575, 0x646f72616e646f6d, 0x6c7967656e657261, 0x7465646279746573
+    def rnd(v0, v1, v2, v3):
+        v0 = (v0 + v1) & M64; v1 = _rotl(v1, 13); v1 ^= v0; v0 = _rotl(v0, 32)
+        v2 = (v2 + v3) & M64; v3 = _rotl(v3, 16); v3 ^= v2
+        v0 = (v0 + v3) & M64; v3 = _rotl(v3, 21); v3 ^= v0
+        v2 = (v2 + v1) & M64; v1 = _rotl(v1, 17); v1 ^= v2; v2 = _rotl(v2, 32)
+        return v0, v1, v2, v3
+    n = len(data)
+    i = 0
+    while i + 8 <= n:
+        m = int.from_bytes(data[i:i + 8], 'little')
+        v3 ^= m
+        v0, v1, v2, v3 = rnd(v0, v1, v2, v3)
+        v0 ^= m
+        i += 8
+    b = ((n & 0xff) << 56) | int.from_bytes(data[i:], 'little')
+    v3 ^= b
+    v0, v1, v2, v3 = rnd(v0, v1, v2, v3)
+    v0 ^= b
+    v2 ^= 0xff
+    for _ in range(3):
+        v0, v1, v2, v3 = rnd(v0, v1, v2, v3)
+    return v0 ^ v1 ^ v2 ^ v3
+
+def hash_bucket(vty, v, cap):
+    if vty.startswith('weak'):
+        h = siphash13(le(v % int(vty[4:]), 8))
+    else:
+        w = {'u64': 8, 'u32': 4, 'u8': 1}[vty]
+        h = siphash13(le(v, w))
+    return (h & 0xffffffff) % cap
+
+def hash_state_bytes(rng, vty, cap, values, extra_free):
+    """bytes of a hash-set state satisfying the invariant: the given members chained in random
+    order per bucket, random slot assignment, `extra_free` recycled slots in random order, the rest
+    of the slots never used"""
+    vsz = 8 if vty.startswith('weak') else {'u64': 8, 'u32': 4, 'u8': 1}[vty]
+    n = len(values)
+    used = n + extra_free
+    assert used <= cap
+    seq = used + 1
+    slots = list(range(1, used + 1)); rng.shuffle(slots)
+    live = dict(zip(values, slots[:n]))
+    free = slots[n:]
+    hb = [0] * cap; hn = [0] * cap; hv = [0] * cap
+    buckets = {}
+    for v in values:
+        buckets.setdefault(hash_bucket(vty, v, cap), []).append(v)
+    for b, vs in buckets.items():
+        rng.shuffle(vs)
+        hb[b] = live[vs[0]]
+        for x, y in zip(vs, vs[1:] + [None]):
+            hv[live[x] - 1] = x
+            hn[live[x] - 1] = live[y] if y is not None else 0
+    flh = seq
+    for f in reversed(free):
+        hn[f - 1] = flh; flh = f
+    voff = round_up(8, vsz); rlen = round_up(voff + vsz, max(4, vsz))
+    body = b''
+    for i in range(cap):
+        rec = le(hb[i], 4) + le(hn[i], 4)
+        rec += bytes(voff - len(rec)) + le(hv[i], vsz)
+        rec += bytes(rlen - len(rec))
+        body += rec
+    return le(n, 4) + le(cap, 4) + le(flh, 4) + le(seq, 4) + body
+
+def hash_single_steps(rng, prefix_id, thorough=False):
+    """every single operation from hand-built invariant states: all subsets (up to a size bound) of a
+    small value universe, chains in random order, recycled slots present"""
+    out = []
+    cid = 0
+    uni = list(range(1, 8))
+    for vty in ('weak1', 'weak2', 'weak3', 'u64'):
+        for cap in ((2, 3, 5) if not thorough else (1, 2, 3, 4, 5, 7)):
+            for n in range(0, min(cap, 5) + 1):
+                for rep in range(2 if not thorough else 6):
+                    vals = rng.sample(uni, n)
+                    ef = rng.randint(0, cap - n) if rng.random() < 0.6 else 0
+                    raw = hash_state_bytes(rng, vty, cap, vals, ef)
+                    hdr = {'vty': vty, 'raw': raw.hex(), 'mode': 'persistent'}
+                    for op in ['ins %d' % k for k in uni + [8]] + ['rem %d' % k for k in uni] + ['has %d' % k for k in uni[:4]]:
+                        out.append(Case('%s%d' % (prefix_id, cid), 'hash', hdr, [op, 'iter', 'size', 'full', 'fill 1000'], {'stream': 'S', 'n': n}))
+                        cid += 1
+    return out
+
 def hash_exhaustive(vty, cap, m, L, prefix_id):
     vals = list(range(1, m + 1))
     alphabet = ['ins %d' % k for k in vals] + ['rem %d' % k for k in vals]
